@@ -47,7 +47,7 @@ Definition loop_globals (w : lworld) : env :=
    ("coreda.StatusContextCanceled", VStatus Proxy.StCanceled);
    ("$pkg", VOrc "pkg" [("time.After", [VUnit]); ("SubmitWithHelpers", [res_v w]); ("postSubmit", [VUnit])])].
 (* the helper is a collaborator here (its own lemma is GoLiteDA.go_SubmitWithHelpers) *)
-Definition loop_funs : list (string * gfun) := filter (fun p => negb (fst p =? "SubmitWithHelpers")) gen_funs.
+Definition loop_funs : list (string * gfun) := filter (fun p => (fst p =? "submitToDA$iter") || (fst p =? "Manager.exponentialBackoff")) gen_funs.
 
 Definition locals_v (all : bool) (backoff attempt gas0 gas : Z) (lo hi nsub remlen : N) : list gval :=
   [VBool all; VZ backoff; VZ attempt; VZ gas0; VZ gas; VSeg "items" lo hi; VN nsub; VSeg "blobs" lo hi; VN remlen].
